@@ -689,9 +689,20 @@ func (db *RockDB) DelIfEQ(ts int64, rawKey []byte, oldV []byte) (int64, error) {
 	return n, err
 }
 
+// kvStrLenForWrite returns the length of the (not expired) value at the timestamp of the write
+func (db *RockDB) kvStrLenForWrite(ts int64, rawKey []byte) (int64, error) {
+	_, _, v, expired, err := db.getRawDBKVValue(ts, rawKey, false)
+	if err != nil || expired {
+		return 0, err
+	}
+	realV, _, err := db.decodeDBRawValueToRealValue(v)
+	return int64(len(realV)), err
+}
+
 func (db *RockDB) SetRange(ts int64, rawKey []byte, offset int, value []byte) (int64, error) {
 	if len(value) == 0 {
-		return 0, nil
+		// nothing is changed, the reply is the current length as in redis
+		return db.kvStrLenForWrite(ts, rawKey)
 	}
 	if len(value)+offset > MaxValueSize {
 		return 0, errValueSize
@@ -773,7 +784,8 @@ func (db *RockDB) StrLen(key []byte) (int64, error) {
 
 func (db *RockDB) Append(ts int64, rawKey []byte, value []byte) (int64, error) {
 	if len(value) == 0 {
-		return 0, nil
+		// nothing is changed, the reply is the current length as in redis
+		return db.kvStrLenForWrite(ts, rawKey)
 	}
 
 	keyInfo, realV, err := db.prepareKVValueForWrite(ts, rawKey, false)
